@@ -87,7 +87,7 @@ func (c *Case) summary() any {
 	return map[string]any{"kind": c.Kind, "preset": c.Preset, "fork": c.Fork, "state_ssz_bytes": len(c.State) / 2, "accessor": c.Chain, "args": c.Args, "actions": c.Actions, "sim": c.Sim}
 }
 
-var mutatingOps = map[string]bool{"AddValidator": true, "SeedRandao": true, "RotateSyncCommittee": true, "AddAt": true, "FillZeroes": true, "RotatePendingAttestations": true, "RotateParticipation": true}
+var mutatingOps = map[string]bool{"AddValidator": true, "SeedRandao": true, "RotateSyncCommittee": true, "AddAt": true, "FillZeroes": true, "RotatePendingAttestations": true, "RotateParticipation": true, "SetRecentRoots": true}
 
 func isWriter(ch *Chain) bool {
 	l := ch.Leaf()
